@@ -322,3 +322,41 @@ Proof.
   - rewrite (cw_build_error_lemma V k nfb pvs e Hnfb Hsz Es). exact I.
   - apply okscale_no_panic. exact (cw_build_valid V k nfb pvs Hnfb Hsz Es).
 Qed.
+
+(* ---- the pattern-only entry points (values = input positions converted with V::try_from) ----------- *)
+Definition plain_len (ps : list (list N)) : N := fold_right (fun p a => N.of_nat (length p) + a) 0 ps.
+
+Lemma bw_enumerate_conv_fst (V : Type) conv : forall ps i pvs, enumerate_conv V conv i ps = Some pvs -> map fst pvs = ps.
+Proof.
+  induction ps as [|p r IH]; intros i pvs H; cbn [enumerate_conv] in H; [inversion H; reflexivity|].
+  destruct (conv i) as [v|]; [|discriminate]. destruct (enumerate_conv V conv (S i) r) as [l|] eqn:E; [|discriminate].
+  inversion H; subst. cbn [map fst]. f_equal. exact (IH (S i) l E).
+Qed.
+Lemma cw_enumerate_conv_fst (V : Type) conv : forall ps i pvs, cw_enumerate_conv V conv i ps = Some pvs -> map fst pvs = ps.
+Proof.
+  induction ps as [|p r IH]; intros i pvs H; cbn [cw_enumerate_conv] in H; [inversion H; reflexivity|].
+  destruct (conv i) as [v|]; [|discriminate]. destruct (cw_enumerate_conv V conv (S i) r) as [l|] eqn:E; [|discriminate].
+  inversion H; subst. cbn [map fst]. f_equal. exact (IH (S i) l E).
+Qed.
+Lemma total_len_plain {V} (pvs : list (list N * V)) : total_len V pvs = plain_len (map fst pvs).
+Proof. unfold total_len, plain_len. induction pvs as [|pv r IH]; cbn [fold_right map]; [reflexivity|]. rewrite IH. reflexivity. Qed.
+
+Theorem bw_build_entry_no_panic (V : Type) conv k nfb (ps : list (list N)) : nfb <> 0 ->
+  (forall p, In p ps -> Forall (fun b => b < 256) p) -> 4 * plain_len ps <= U32_MAX - 1 ->
+  no_panic (bw_build V conv k nfb ps).
+Proof.
+  intros Hn Hb Hs. unfold bw_build. apply N.eqb_neq in Hn. rewrite Hn. apply N.eqb_neq in Hn.
+  destruct (enumerate_conv V conv 0 ps) as [pvs|] eqn:E; [|exact I].
+  pose proof (bw_enumerate_conv_fst V conv ps 0%nat pvs E) as Hfst.
+  apply bw_build_no_panic; [exact Hn| |rewrite total_len_plain, Hfst; exact Hs].
+  intros p v Hin. apply Hb. rewrite <- Hfst. apply in_map_iff. exists (p, v). auto.
+Qed.
+
+Theorem cw_build_entry_no_panic (V : Type) conv k nfb (ps : list (list N)) : nfb <> 0 ->
+  4 * plain_len ps <= U32_MAX - 1 -> no_panic (cw_build V conv k nfb ps).
+Proof.
+  intros Hn Hs. unfold cw_build. apply N.eqb_neq in Hn. rewrite Hn. apply N.eqb_neq in Hn.
+  destruct (cw_enumerate_conv V conv 0 ps) as [pvs|] eqn:E; [|exact I].
+  pose proof (cw_enumerate_conv_fst V conv ps 0%nat pvs E) as Hfst.
+  apply cw_build_no_panic; [exact Hn|rewrite total_len_plain, Hfst; exact Hs].
+Qed.
